@@ -65,8 +65,43 @@ def conversion_guard(repo, call, fi):
                         pat = v.args[0].value
                 except Exception:
                     pat = None
-            if pat is not None and set(pat) <= set("-?[0-9]+\\.*"):
+            if pat is not None and numeric_pattern(pat) in ({"int": ("int",), "float": ("int", "float")}[call.func.id]):
                 return f"guarded by a full match of `{var}` against the numeric pattern {pat!r}"
+    return None
+
+
+def numeric_pattern(pat):
+    """"int" when the regular expression has the form  -?DIGITS{1+,..} , "float" for  -?DIGITS{1+,..} . DIGITS{..}  (every string it accepts
+    is then accepted by int() / float(): at least one digit before an optional-length fraction), None otherwise -- decided on the parsed
+    pattern, item by item, lower bounds included."""
+    import re._parser as sre
+    try:
+        items = list(sre.parse(pat))
+    except Exception:
+        return None
+
+    def digits(it, lo, hi_unbounded):
+        op, av = it
+        if str(op) != "MAX_REPEAT":
+            return False
+        mn, mx, sub = av
+        if mn < lo or len(sub) != 1:          # at least `lo` digits; fewer admitted strings are still numbers
+            return False
+        sop, sav = sub[0]
+        if str(sop) == "IN":
+            return [str(x) for x in sav] in (["(RANGE, (48, 57))"], ["(CATEGORY, CATEGORY_DIGIT)"])
+        return False
+
+    def lit(it, ch):
+        return str(it[0]) == "LITERAL" and it[1] == ord(ch)
+    k = 0
+    if items and str(items[0][0]) == "MAX_REPEAT" and items[0][1][0] == 0 and items[0][1][1] == 1 and len(items[0][1][2]) == 1 and lit(items[0][1][2][0], "-"):
+        k = 1
+    rest = items[k:]
+    if len(rest) == 1 and digits(rest[0], 1, True):
+        return "int"
+    if len(rest) == 3 and digits(rest[0], 1, True) and lit(rest[1], ".") and digits(rest[2], 0, True):
+        return "float"
     return None
 
 
@@ -548,6 +583,8 @@ def run(repo, chk):
              and expand(n.generators[0].iter, pi.node) in ["self._selectors"] + stored]
     chk.ob("R18.3", "probe.Probe.__init__:every-selector-gets-a-rule", len(stored) == 1 and len(ruled) == 1, pi.where,
            "every compiled selector goes through _make_rule (focus checks) at construction")
+    from .shared import call_aggregate_obligations
+    call_aggregate_obligations(repo, chk, "R18.3", ["all_tags", "valid", "main", "focus"], "the focus-pattern and validity refusals see a focus written anywhere on the call path")
     me = repo.func("probe.Probe._make_emitter")
     fme = facts_of(me)
     T = (fme.bound_to("set(sel.all_tags)") or ["set(sel.all_tags)"])[0]
